@@ -474,6 +474,7 @@ theorem deny_before_effects {P : Pton} (law : PtonLaw P) (cfg : FileCfg) (w : Wo
         | served => intro hp; exact absurd hp (by simp)
         | notFound => intro hp; exact absurd hp (by simp)
         | dsError => intro hp; exact absurd hp (by simp)
+        | badRequest => intro hp; exact absurd hp (by simp)
 
 /-- the data-source failure of the update handler: `get_data` is needed and raises -/
 def sqliteDsFails (cfg : SqliteCfg) (data : Option Val) : Bool := cfg.keyPath.isSome && data.isNone
@@ -481,9 +482,10 @@ def sqliteDsFails (cfg : SqliteCfg) (data : Option Val) : Bool := cfg.keyPath.is
 /-- **Deny before any change — SQLite update handler.** Unless the client is authorised the outcome is
 forbidden / data-source error / (wrong type) internal error and no store operation happened. -/
 theorem deny_before_effects_sqlite {P : Pton} (law : PtonLaw P) (cfg : SqliteCfg) (data : Option Val)
-    (client : String) :
+    (client : String) (bodyOk : Bool) :
     effectsOK (authorisedBy P (expectedSqlite cfg data) client) (sqliteDsFails cfg data)
-      (expectedSqlite cfg data).hasBad (decideSqlite P cfg data client).1 (decideSqlite P cfg data client).2 = true := by
+      (expectedSqlite cfg data).hasBad (decideSqlite P cfg data client bodyOk).1
+      (decideSqlite P cfg data client bodyOk).2 = true := by
   unfold decideSqlite sqliteDsFails
   simp only
   by_cases h1 : (cfg.keyPath.isSome && data.isNone) = true
@@ -492,7 +494,7 @@ theorem deny_before_effects_sqlite {P : Pton} (law : PtonLaw P) (cfg : SqliteCfg
     have hp := permission_none_iff law (expectedSqlite cfg data) client
     revert hp
     cases permission P (expectedSqlite cfg data) client with
-    | none => intro hp; simp only at hp; simp [effectsOK, hp]
+    | none => intro hp; simp only at hp; cases bodyOk <;> simp [effectsOK, hp]
     | some o =>
       cases o with
       | forbidden => intro _; simp [effectsOK]
@@ -500,6 +502,7 @@ theorem deny_before_effects_sqlite {P : Pton} (law : PtonLaw P) (cfg : SqliteCfg
       | served => intro hp; exact absurd hp (by simp)
       | notFound => intro hp; exact absurd hp (by simp)
       | dsError => intro hp; exact absurd hp (by simp)
+      | badRequest => intro hp; exact absurd hp (by simp)
 
 /-- one world: a client that is not authorised, with no wrongly typed value involved and no re-raised
 data-source failure, is answered `forbidden` and nothing was touched -/
@@ -532,6 +535,7 @@ theorem unauthorised_forbidden {P : Pton} (law : PtonLaw P) (cfg : FileCfg) (w :
     | served => intro hp; exact absurd hp (by simp)
     | notFound => intro hp; exact absurd hp (by simp)
     | dsError => intro hp; exact absurd hp (by simp)
+    | badRequest => intro hp; exact absurd hp (by simp)
 
 /-- **What an unauthorised client sees does not depend on the world.** Take any two worlds — they may
 differ in whether the system exists (`find`), in all of its data, and in whether the file exists, is a
@@ -553,11 +557,14 @@ theorem unauthorised_independent_of_world {P : Pton} (law : PtonLaw P) (cfg : Fi
   exact ⟨by rw [a.1, b.1], a.1, a.2.1, b.2.1, a.2.2.1, b.2.2.1⟩
 
 /-- **The store is untouched for an unauthorised client**, whatever the stored data looks like (wrong
-types and data-source failures included): no store operation and the update is not applied. -/
+types and data-source failures included) and whatever the request body is: no store operation, the
+update is not applied, and the answer does not depend on the body (`bodyOk`) — in particular it is never
+"bad request": the body is not looked at before the access decision. -/
 theorem unauthorised_sqlite_store_untouched {P : Pton} (law : PtonLaw P) (cfg : SqliteCfg) (data : Option Val)
-    (client : String) (hu : authorisedBy P (expectedSqlite cfg data) client = false) :
-    (decideSqlite P cfg data client).2.storeOps = 0 ∧ (decideSqlite P cfg data client).1 ≠ .served := by
-  have h := deny_before_effects_sqlite law cfg data client
+    (client : String) (bodyOk : Bool) (hu : authorisedBy P (expectedSqlite cfg data) client = false) :
+    (decideSqlite P cfg data client bodyOk).2.storeOps = 0 ∧ (decideSqlite P cfg data client bodyOk).1 ≠ .served ∧
+    (decideSqlite P cfg data client bodyOk).1 ≠ .badRequest := by
+  have h := deny_before_effects_sqlite law cfg data client bodyOk
   rw [hu] at h
   simp only [effectsOK, Bool.false_or, Bool.and_eq_true, Bool.or_eq_true, beq_iff_eq] at h
   refine ⟨h.2, ?_⟩
@@ -565,6 +572,21 @@ theorem unauthorised_sqlite_store_untouched {P : Pton} (law : PtonLaw P) (cfg : 
   · rw [h']; simp
   · rw [h'.1]; simp
   · rw [h'.1]; simp
+
+/-- **The body cannot influence what an unauthorised client gets** (update handler): the decision and
+the effects are the same for a decodable and an undecodable body. -/
+theorem unauthorised_sqlite_body_irrelevant {P : Pton} (law : PtonLaw P) (cfg : SqliteCfg) (data : Option Val)
+    (client : String) (hu : authorisedBy P (expectedSqlite cfg data) client = false) :
+    decideSqlite P cfg data client true = decideSqlite P cfg data client false := by
+  have hp := permission_none_iff law (expectedSqlite cfg data) client
+  unfold decideSqlite
+  by_cases h1 : (cfg.keyPath.isSome && data.isNone) = true
+  · simp [h1]
+  · simp only [h1, Bool.false_eq_true, if_false]
+    revert hp
+    cases hperm : permission P (expectedSqlite cfg data) client with
+    | none => intro hp; simp only at hp; rw [hu] at hp; simp at hp
+    | some o => intro _; rfl
 
 /-! ## the hypotheses are satisfiable, the known-bad behaviours are rejected -/
 
